@@ -1,6 +1,6 @@
 (* Facts about Resolve.v (C12): the panic of the pre-fix parser, absence of panics afterwards. *)
 From Coq Require Import List NArith Bool Lia.
-From Stef.Idl Require Import Lexer Ast Parser Resolve.
+From Stef.Idl Require Import Lexer Ast Parser Resolve TokSpec SchemaSpec ParserFacts.
 Import ListNotations.
 Open Scope N_scope.
 
@@ -16,3 +16,196 @@ Proof. exists d7_witness_field. vm_compute. reflexivity. Qed.
 
 Lemma parse_legacy_panics_multimap_key : parse_legacy d7_witness_key = OPanic PUnknownType.
 Proof. vm_compute. reflexivity. Qed.
+
+(* ---------- name lookups depend on the names only ---------- *)
+Lemma has_struct_in : forall sch n, has_struct sch n = true <-> In n (map is_name (i_structs sch)).
+Proof.
+  intros sch n. unfold has_struct. induction (i_structs sch) as [|s l IH]; cbn [find_struct map In]; [split; [discriminate|tauto]|].
+  destruct (str_eqb (is_name s) n) eqn:E.
+  - apply str_eqb_eq in E. split; auto.
+  - rewrite IH. split; [auto|]. intros [Ex|H]; [subst; now rewrite str_eqb_refl in E|exact H].
+Qed.
+Lemma has_mmap_in : forall sch n, has_mmap sch n = true <-> In n (map im_name (i_mmaps sch)).
+Proof.
+  intros sch n. unfold has_mmap. induction (i_mmaps sch) as [|s l IH]; cbn [find_mmap map In]; [split; [discriminate|tauto]|].
+  destruct (str_eqb (im_name s) n) eqn:E.
+  - apply str_eqb_eq in E. split; auto.
+  - rewrite IH. split; [auto|]. intros [Ex|H]; [subst; now rewrite str_eqb_refl in E|exact H].
+Qed.
+Lemma has_enum_in : forall sch n, has_enum sch n = true <-> In n (map ie_name (i_enums sch)).
+Proof.
+  intros sch n. unfold has_enum. induction (i_enums sch) as [|s l IH]; cbn [find_enum map In]; [split; [discriminate|tauto]|].
+  destruct (str_eqb (ie_name s) n) eqn:E.
+  - apply str_eqb_eq in E. split; auto.
+  - rewrite IH. split; [auto|]. intros [Ex|H]; [subst; now rewrite str_eqb_refl in E|exact H].
+Qed.
+
+Definition same_names (a b : ischema) : Prop :=
+  map is_name (i_structs a) = map is_name (i_structs b) /\
+  map im_name (i_mmaps a) = map im_name (i_mmaps b) /\
+  map ie_name (i_enums a) = map ie_name (i_enums b).
+
+Lemma rtype_same_names : forall a b t, same_names a b -> rtype a t -> rtype b t.
+Proof.
+  intros a b t [H1 [H2 H3]]. induction t; cbn [rtype]; auto.
+  - intros H. apply has_struct_in. rewrite <- H1. now apply has_struct_in.
+  - intros H. apply has_mmap_in. rewrite <- H2. now apply has_mmap_in.
+  - intros H. apply has_enum_in. rewrite <- H3. now apply has_enum_in.
+Qed.
+
+(* ---------- resolveFieldType ---------- *)
+Lemma resolve_base : forall sch t t', base_shape t -> resolve_type sch t = inr t' ->
+  rtype sch t' /\ match t' with IArray _ _ _ => False | _ => True end.
+Proof.
+  intros sch t t' Hs H. destruct t; cbn [base_shape] in Hs; try contradiction; cbn [resolve_type] in H.
+  - inversion H; subst. cbn. auto.
+  - unfold resolve_name in H.
+    destruct (has_struct sch n) eqn:E1, (has_mmap sch n) eqn:E2, (has_enum sch n) eqn:E3; inversion H; subst; cbn [rtype]; auto.
+Qed.
+
+Lemma resolve_shape : forall sch t t', shape t -> resolve_type sch t = inr t' -> rtype sch t'.
+Proof.
+  intros sch t t' Hs H. destruct t; cbn [shape] in Hs; try contradiction.
+  - apply (resolve_base sch (IPrim p d)); [exact I|exact H].
+  - apply (resolve_base sch (IRef n d)); [exact I|exact H].
+  - cbn [resolve_type] in H. destruct (resolve_type sch t) as [x|e'] eqn:E; [discriminate|].
+    inversion H; subst. cbn [rtype]. apply (resolve_base sch t e' Hs E).
+Qed.
+
+Lemma resolve_fields_spec : forall sch fs fs', resolve_fields sch fs = inr fs' ->
+  map if_name fs' = map if_name fs /\
+  (Forall (fun f => shape (if_type f)) fs -> forall f, In f fs' -> rtype sch (if_type f)).
+Proof.
+  intros sch. induction fs as [|f fs IH]; intros fs' H; cbn [resolve_fields] in H.
+  - inversion H; subst. split; [reflexivity|intros _ f []].
+  - destruct (resolve_type sch (if_type f)) as [x|t] eqn:Et; [discriminate|].
+    destruct (resolve_fields sch fs) as [x|r'] eqn:Er; [discriminate|].
+    inversion H; subst. destruct (IH r' eq_refl) as [Hn Hr]. split.
+    + cbn [map if_name]. now rewrite Hn.
+    + intros Hall g [Eg|Hg]; inversion Hall; subst.
+      * cbn [if_type]. eapply resolve_shape; eassumption.
+      * auto.
+Qed.
+
+Definition srel (sch : ischema) (b : bool) (sd sd' : isdef) : Prop :=
+  is_name sd' = is_name sd /\ is_root sd' = is_root sd /\
+  map if_name (is_fields sd') = map if_name (is_fields sd) /\
+  (b = true -> forall f, In f (is_fields sd') -> rtype sch (if_type f)).
+
+Lemma resolve_structs_spec : forall sch b l l', Forall (struct_ok b) l -> resolve_structs sch l = inr l' ->
+  Forall2 (srel sch b) l l'.
+Proof.
+  intros sch b. induction l as [|s l IH]; intros l' Hall H; cbn [resolve_structs] in H.
+  - inversion H; subst. constructor.
+  - destruct (resolve_fields sch (is_fields s)) as [x|fs] eqn:Ef; [discriminate|].
+    destruct (resolve_structs sch l) as [x|r'] eqn:Er; [discriminate|].
+    inversion H; subst. inversion Hall as [|? ? Hs Hl]; subst.
+    constructor; [|apply IH; auto].
+    destruct (resolve_fields_spec _ _ _ Ef) as [Hn Hr].
+    unfold srel. cbn [is_name is_root is_fields]. repeat split; auto.
+    intros Hb. apply Hr. destruct Hs as [[_ Hsh] _]. auto.
+Qed.
+
+Definition mrel (sch : ischema) (b : bool) (md md' : imdef) : Prop :=
+  im_name md' = im_name md /\ (b = true -> rtype sch (im_key md') /\ rtype sch (im_val md')).
+
+Lemma resolve_mmaps_spec : forall sch b l l', Forall (mmap_ok b) l -> resolve_mmaps sch l = inr l' ->
+  Forall2 (mrel sch b) l l'.
+Proof.
+  intros sch b. induction l as [|m l IH]; intros l' Hall H; cbn [resolve_mmaps] in H.
+  - inversion H; subst. constructor.
+  - destruct (resolve_type sch (im_key m)) as [x|k] eqn:Ek; [discriminate|].
+    destruct (resolve_type sch (im_val m)) as [x|v] eqn:Ev; [discriminate|].
+    destruct (resolve_mmaps sch l) as [x|r'] eqn:Er; [discriminate|].
+    inversion H; subst. inversion Hall as [|? ? Hm Hl]; subst.
+    constructor; [|apply IH; auto].
+    unfold mrel. cbn [im_name im_key im_val]. split; [reflexivity|].
+    intros Hb. destruct Hm as [Hsh _]. destruct (Hsh Hb) as [Hk Hv].
+    split; [exact (resolve_shape _ _ _ Hk Ek)|exact (resolve_shape _ _ _ Hv Ev)].
+Qed.
+
+Lemma Forall2_map_eq : forall A B C (R : A -> B -> Prop) (f : A -> C) (g : B -> C) l l',
+  Forall2 R l l' -> (forall a b, R a b -> g b = f a) -> map g l' = map f l.
+Proof. induction 1; intros Hf; cbn [map]; [reflexivity|]. rewrite (Hf _ _ H), IHForall2; auto. Qed.
+
+Lemma Forall2_in_r : forall A B (R : A -> B -> Prop) l l' b, Forall2 R l l' -> In b l' -> exists a, In a l /\ R a b.
+Proof.
+  induction 1; intros Hin; [destruct Hin|]. destruct Hin as [E|Hin].
+  - subst. eexists; split; [left; reflexivity|assumption].
+  - destruct (IHForall2 Hin) as [a [Ha Hr]]. exists a. split; [right; exact Ha|exact Hr].
+Qed.
+
+(* what ResolveRefs (its name-resolution half) establishes on the parser's output *)
+Theorem resolve_refs_ok : forall sch sch1, sch_ok true sch -> resolve_refs sch = inr sch1 ->
+  sch_resolved sch1 /\ NoDup (top_names sch1) /\ Forall struct_wf (i_structs sch1) /\ i_pkg sch1 = i_pkg sch.
+Proof.
+  intros sch sch1 [Hnd [Hs Hm]] H. unfold resolve_refs in H.
+  destruct (resolve_structs sch (i_structs sch)) as [x|ss] eqn:Es; [discriminate|].
+  destruct (resolve_mmaps sch (i_mmaps sch)) as [x|ms] eqn:Em; [discriminate|].
+  inversion H; subst sch1. clear H.
+  pose proof (resolve_structs_spec sch true _ _ Hs Es) as Hss.
+  pose proof (resolve_mmaps_spec sch true _ _ Hm Em) as Hms.
+  assert (Hsame : same_names sch (mkISchema (i_pkg sch) ss ms (i_enums sch))).
+  { unfold same_names. cbn [i_structs i_mmaps i_enums]. split; [|split; [|reflexivity]]; symmetry.
+    - eapply Forall2_map_eq; [exact Hss|]. intros a b [E _]. exact E.
+    - eapply Forall2_map_eq; [exact Hms|]. intros a b [E _]. exact E. }
+  split; [|split; [|split; [|reflexivity]]].
+  - split; cbn [i_structs i_mmaps].
+    + intros sd Hsd f Hf. destruct (Forall2_in_r _ _ _ _ _ _ Hss Hsd) as [sd0 [_ [_ [_ [_ Hr]]]]].
+      eapply rtype_same_names; [exact Hsame|]. apply Hr; auto.
+    + intros md Hmd. destruct (Forall2_in_r _ _ _ _ _ _ Hms Hmd) as [md0 [_ [_ Hr]]].
+      destruct (Hr eq_refl). split; eapply rtype_same_names; eauto.
+  - destruct Hsame as [E1 [E2 E3]]. unfold top_names in *. cbn [i_structs i_mmaps i_enums] in *. rewrite <- E1, <- E2. exact Hnd.
+  - cbn [i_structs]. apply Forall_forall. intros sd Hsd.
+    destruct (Forall2_in_r _ _ _ _ _ _ Hss Hsd) as [sd0 [Hin0 [_ [Hroot [Hnames _]]]]].
+    rewrite Forall_forall in Hs. destruct (Hs sd0 Hin0) as [[Hndf _] [Hr _]].
+    split.
+    + rewrite Hnames. exact Hndf.
+    + rewrite Hroot. intros Hrt Hnil. apply (Hr Hrt).
+      destruct (is_fields sd0); [reflexivity|]. rewrite Hnil in Hnames. discriminate.
+Qed.
+
+(* ---------- apply_marks keeps everything but the recursive flags ---------- *)
+Lemma indexed_map_names : forall (g : nat * isfield -> isfield) fs i,
+  (forall ix, if_name (g ix) = if_name (snd ix)) ->
+  map if_name (map g (indexed i fs)) = map if_name fs.
+Proof.
+  intros g. induction fs as [|f fs IH]; intros i Hg; cbn [indexed map]; [reflexivity|].
+  rewrite Hg. cbn [snd]. now rewrite IH.
+Qed.
+
+Lemma mark_type_rtype : forall sch marks l t, rtype sch t -> rtype sch (mark_type marks l t).
+Proof. intros sch marks l t H. destruct t; cbn [mark_type rtype] in *; auto. Qed.
+
+Lemma indexed_in : forall A (l : list A) i ix, In ix (indexed i l) -> In (snd ix) l.
+Proof.
+  induction l as [|x l IH]; intros i ix H; cbn [indexed In] in *; [contradiction|].
+  destruct H as [E|H]; [subst; left; reflexivity|right; eapply IH; exact H].
+Qed.
+
+Theorem apply_marks_ok : forall sch marks,
+  sch_resolved sch -> NoDup (top_names sch) -> Forall struct_wf (i_structs sch) ->
+  sch_resolved (apply_marks sch marks) /\ NoDup (top_names (apply_marks sch marks)) /\
+  Forall struct_wf (i_structs (apply_marks sch marks)) /\ i_pkg (apply_marks sch marks) = i_pkg sch.
+Proof.
+  intros sch marks [Hrs Hrm] Hnd Hwf.
+  assert (Hsame : same_names sch (apply_marks sch marks)).
+  { unfold same_names, apply_marks. cbn [i_structs i_mmaps i_enums]. rewrite !map_map. cbn [is_name im_name]. auto. }
+  split; [|split; [|split; [|reflexivity]]].
+  - split.
+    + intros sd Hsd f Hf. unfold apply_marks in Hsd. cbn [i_structs] in Hsd.
+      apply in_map_iff in Hsd. destruct Hsd as [sd0 [E Hin0]]. subst sd. cbn [is_fields] in Hf.
+      apply in_map_iff in Hf. destruct Hf as [ix [E Hix]]. subst f. cbn [if_type].
+      eapply rtype_same_names; [exact Hsame|]. apply mark_type_rtype. eapply Hrs; [exact Hin0|].
+      eapply indexed_in. exact Hix.
+    + intros md Hmd. unfold apply_marks in Hmd. cbn [i_mmaps] in Hmd.
+      apply in_map_iff in Hmd. destruct Hmd as [md0 [E Hin0]]. subst md. cbn [im_key im_val].
+      destruct (Hrm md0 Hin0). split; (eapply rtype_same_names; [exact Hsame|]); apply mark_type_rtype; assumption.
+  - destruct Hsame as [E1 [E2 E3]]. unfold top_names. rewrite <- E1, <- E2, <- E3. exact Hnd.
+  - unfold apply_marks. cbn [i_structs]. apply Forall_forall. intros sd Hsd.
+    apply in_map_iff in Hsd. destruct Hsd as [sd0 [E Hin0]]. subst sd.
+    rewrite Forall_forall in Hwf. destruct (Hwf sd0 Hin0) as [Hn Hr].
+    unfold struct_wf. cbn [is_fields is_root]. split.
+    + rewrite indexed_map_names; [exact Hn|reflexivity].
+    + intros Hrt Hnil. apply (Hr Hrt). destruct (is_fields sd0); [reflexivity|discriminate Hnil].
+Qed.
